@@ -227,3 +227,30 @@ Theorem C10_gml_roundtrip_explicit_h :
     (forall u v, adj I' u v = adj c u v).
 Proof. exact gml_roundtrip_eh. Qed.
 Print Assumptions C10_gml_roundtrip_explicit_h.
+
+(** Hydrogen round trip and skeleton for an ARBITRARY node list (partial / staged expansion: a subset of the atoms, a
+    single reactive atom as the reactor does, duplicates, ids that are not atoms).  [exp_nodes g nodes] = the atoms
+    visited (all of them for None / []).  The new hydrogens are numbered above EVERY id of the graph
+    ((max_id g < h): fresh ids avoid all existing ids, whatever subset was selected), old atoms are never overwritten:
+    atoms outside the subset keep their dictionary, atoms inside have hcount lowered; folding back restores the graph
+    as in C10_h_roundtrip, at the selected atoms. *)
+Theorem C10_h_explicit_skeleton_nodes :
+  forall (g : gr) (nodes : option (list N)), gwfb g = true ->
+    let E := h_to_explicit g nodes false in
+    (forall n a, label g n = Some a -> label E n = Some (if mem n (exp_nodes g nodes) then h_lowered a else a)) /\
+    (forall u v, In u (node_ids g) -> In v (node_ids g) -> adj E u v = adj g u v) /\
+    (forall h, In h (node_ids E) -> ~ In h (node_ids g) ->
+       (max_id g < h)%N /\ label E h = Some H_att /\
+       exists m, In m (node_ids g) /\ forall w, adj E h w = if N.eqb w m then Some e_single else None).
+Proof. exact h_explicit_skeleton_nodes. Qed.
+Print Assumptions C10_h_explicit_skeleton_nodes.
+
+Theorem C10_h_roundtrip_nodes :
+  forall (g : gr) (nodes : option (list N)), gwfb g = true -> no_H g = true ->
+    let g' := h_to_implicit (h_to_explicit g nodes false) in
+    node_ids g' = node_ids g /\
+    (forall n a, label g n = Some a ->
+       label g' n = Some (if mem n (exp_nodes g nodes) then h_restore a else a)) /\
+    (forall u v, adj g' u v = adj g u v).
+Proof. exact h_roundtrip_nodes. Qed.
+Print Assumptions C10_h_roundtrip_nodes.
